@@ -332,6 +332,8 @@ PROPS = {
         "explanation": "C03 theorems over the dumper's action script: for every attach outcome of every thread and every ending (refused, init failure, hard error or "
                        "panic after k capture steps, after resume, completion) every surviving attached thread is detached exactly once, the trace ends with SIGCONT, "
                        "every signal seen while attaching is re-injected unchanged, no capture follows the first detach.",
+        "extra_modules": ["MdwModel.Theorems.AttachLoop"],
+        "extra_theorems": ["AttachLoop_source_agrees", "AttachLoop_all_signals", "AttachLoop_stop_after_signals"]
     },
     "C18": {
         "rule": "live dumps (same generated targets and option combinations as C01): raw streams vs. the harness's own reads of /proc/<tid>/{cmdline,environ,auxv,limits,maps,status} "
